@@ -19,8 +19,8 @@ SPECS = {
         'arms': [{
             'name': 'service',
             'module': 'scenarios.c20_service',
-            'fault_kinds': ['prov_raise', 'prov_false', 'prov_empty', 'prov_malformed', 'prov_stale', 'prov_slow',
-                            'clock_jump', 'cache_partial'],
+            'fault_kinds': ['prov_raise', 'prov_ctor_raise', 'prov_false', 'prov_empty', 'prov_malformed', 'prov_stale',
+                            'prov_slow', 'clock_jump', 'cache_partial'],
             'tiers': {
                 'quick': {'runs': 700, 'budget_s': 100, 'run_timeout_s': 120, 'shrink_budget_s': 60,
                           'params': {'slice_p': 0.35}},
